@@ -188,6 +188,39 @@ def gen_cases(seed, chunk, n, tier):
         elif op == "to_dense":
             exp = D
         steps = [{"out": ["r"], "op": op, "in": ins, "params": p}]
+        if op == "add" and rng.random() < 0.5:
+            # mixed element types: a real operand plus a complex one with other stored sectors, then a
+            # second operation on the (mixed-dtype) sum
+            other = "complex128" if not dtype.startswith("complex") else "float64"
+            y2 = gen.rand_array(rng, sym, indices=x.indices, charge=x.charge, static=static, dtype=other,
+                                keep=rng.choice([0.4, 0.7]), min_blocks=0)
+            env["y"] = y2
+            E = oracle.dense(y2)
+            op2 = rng.choice(["conj", "dagger", "neg", "transpose"])
+            p2 = {}
+            Z = D + E
+            idx2 = list(x.indices)
+            ch2 = x.charge
+            if op2 == "conj":
+                Z2 = np.conj(Z); idx2 = [ix.conj() for ix in idx2]; ch2 = gen.py_neg(sym, ch2)
+            elif op2 == "dagger":
+                Z2 = np.conj(np.transpose(Z)); idx2 = [ix.conj() for ix in idx2][::-1]; ch2 = gen.py_neg(sym, ch2)
+            elif op2 == "neg":
+                Z2 = -Z
+            else:
+                perm = list(range(x.ndim)); rng.shuffle(perm); p2 = {"axes": perm}
+                Z2 = np.transpose(Z, perm); idx2 = [idx2[q] for q in perm]
+            steps = [{"out": ["z"], "op": "add", "in": ["x", "y"], "params": {}},
+                     {"out": ["r"], "op": op2, "in": ["z"], "params": p2}]
+            res, env2 = impl.run_prog(env, steps)
+            if all("ok" in r for r in res):
+                orc = _cmp_dense(env2["r"], Z2, idx2, ch2)
+            else:
+                orc = f"{op2} after add raised {[r.get('msg') for r in res if 'raise' in r]}"
+            meta = dict(sym=sym, static=static, dtype=dtype, op="add+" + op2, entry="method")
+            out.append(dict(case=_mk_case(env, steps), impl=stream.strip_py(res), oracle=orc, meta=meta,
+                            nontrivial=set(x.blocks) != set(y2.blocks), op="mixed", triggers=[]))
+            continue
         if op == "abs":
             # not a protocol op: direct oracle only
             try:
